@@ -33,6 +33,7 @@ const (
 	KIter         // P = iterator
 	KOpaque       // P = host object (reflect shim etc.)
 	KDeferStack   // P = **deferred
+	KOpq          // an opaque byte (part of a string formatted from symbolic operands); may be copied, not inspected
 	KSymElem      // P = *symElem: address of a slice element at a symbolic index (load only)
 )
 
